@@ -347,3 +347,45 @@ func addRandomMidConnects(rg *rand.Rand, sc *scen.Scenario) {
 	}
 	_ = fmt.Sprint
 }
+
+// longLoopCases: runs of well over a thousand node visits — an inner work loop of k visits entered m times by an outer
+// loop (k*m + m visits on one level of the flattened machine, at most max(k, 2m) on any level of the nested one),
+// nested 0..2 further levels deep. However long a run is, it ends when the table says so. (Actions are taken from
+// scen.Alphabet, which is what the flattening construction knows.)
+func longLoopCases() []*scen.Scenario {
+	var out []*scen.Scenario
+	for _, mk := range [][2]int{{40, 40}, {3, 700}, {600, 2}, {1, 1500}} {
+		m, k := mk[0], mk[1]
+		for depth := 0; depth <= 2; depth++ {
+			for _, kind := range []int{scen.KPlain, scen.KBase, scen.KFnBldAny} {
+				worker := scen.NodeSpec{Kind: kind, N: 1}
+				for j := 0; j < m*k; j++ {
+					p := scen.Alphabet[0]
+					if j%k == k-1 {
+						p = scen.Alphabet[2]
+					}
+					worker.Visits = append(worker.Visits, scen.Visit{FirstOK: 1, Post: p})
+				}
+				ctl := scen.NodeSpec{Kind: scen.KPlain, N: 1}
+				for j := 0; j < m; j++ {
+					p := scen.Alphabet[1]
+					if j == m-1 {
+						p = scen.Alphabet[4]
+					}
+					ctl.Visits = append(ctl.Visits, scen.Visit{FirstOK: 1, Post: p})
+				}
+				nodes := []scen.NodeSpec{worker, ctl,
+					{Kind: scen.KFlow, N: 1, Flow: &scen.FlowSpec{Start: 0, Conns: []scen.Conn{{From: 0, Action: scen.Alphabet[0], To: 0}}}},
+					{Kind: scen.KFlow, N: 1, Flow: &scen.FlowSpec{Start: 2, Conns: []scen.Conn{{From: 2, Action: scen.Alphabet[2], To: 1}, {From: 1, Action: scen.Alphabet[1], To: 2}}}},
+				}
+				root := 3
+				for d := 0; d < depth; d++ {
+					nodes = append(nodes, scen.NodeSpec{Kind: scen.KFlow, N: 1, Flow: &scen.FlowSpec{Start: root}})
+					root = len(nodes) - 1
+				}
+				out = append(out, &scen.Scenario{Nodes: nodes, Root: root, Runs: 1, MaxCallbacks: 40000, UseFlowRun: depth == 1})
+			}
+		}
+	}
+	return out
+}
